@@ -182,6 +182,7 @@ fn boxing_case(cs: &mut Cases, class: &str, name: &str, ir: &Value, cfg: &GenCfg
     // every struct / enum of the emitted tree by name
     let mut structs: BTreeMap<String, Vec<syn::Type>> = BTreeMap::new();
     let mut struct_ops: BTreeMap<String, Vec<bool>> = BTreeMap::new();
+    let mut struct_builder: BTreeMap<String, Vec<String>> = BTreeMap::new();
     let mut enums: BTreeMap<String, Vec<Option<syn::Type>>> = BTreeMap::new();
     for text in tree.values() {
         if let Ok(file) = syn::parse_file(text) {
@@ -190,6 +191,7 @@ fn boxing_case(cs: &mut Cases, class: &str, name: &str, ir: &Value, cfg: &GenCfg
                     syn::Item::Struct(st) => {
                         if let syn::Fields::Named(n) = &st.fields {
                             structs.entry(st.ident.to_string()).or_insert_with(|| n.named.iter().map(|f| f.ty.clone()).collect());
+                            struct_builder.entry(st.ident.to_string()).or_insert_with(|| n.named.iter().map(|f| builder_desc(&f.attrs)).collect());
                             struct_ops.entry(st.ident.to_string()).or_insert_with(|| n.named.iter().map(|f| f.attrs.iter().any(|a| quote::quote!(#a).to_string().contains("DoubleOps"))).collect());
                         }
                     }
@@ -281,6 +283,9 @@ fn boxing_case(cs: &mut Cases, class: &str, name: &str, ir: &Value, cfg: &GenCfg
                     for (i, f) in fields.iter().enumerate() {
                         if let (Some(sx), Some(Some(ty))) = (type_sexp(&f["type"]), tys.get(i)) {
                             let has_key_double = sx.contains("(set,") || sx.contains("(map,");
+                            if let Some(b) = struct_builder.get(&rust_name).and_then(|v| v.get(i)) {
+                                cs.push("builder", format!("builder {}", sx), b.clone(), b != "-", format!("the element types of the setters of field `{}` of {} in {}", f["fieldName"].as_str().unwrap_or(""), rust_name, name));
+                            }
                             let ops = struct_ops.get(&rust_name).and_then(|v| v.get(i)).copied().unwrap_or(false);
                             cs.push("rust-type", format!("rusttype {}", sx), format!("{}{}", norm_type(ty), if ops { " double-ops" } else { "" }), has_key_double && sx.contains("DOUBLE"), format!("the type of field `{}` of {} in {}", f["fieldName"].as_str().unwrap_or(""), rust_name, name));
                         }
@@ -308,6 +313,101 @@ fn boxing_case(cs: &mut Cases, class: &str, name: &str, ir: &Value, cfg: &GenCfg
     cs.push(class, format!("boxing {}", defs), real.join(";"), any_ref, format!("which references the types generated for {} hold behind a Box", name));
 }
 
+/// the element types a field's `#[builder(list(item(..)))]`, `set(item(..))` or `map(key(..), value(..))` attribute names,
+/// as the model renders them; `-` for every other field
+fn builder_desc(attrs: &[syn::Attribute]) -> String {
+    use proc_macro2::TokenTree;
+    fn groups(ts: proc_macro2::TokenStream, name: &str) -> Option<proc_macro2::TokenStream> {
+        let v: Vec<TokenTree> = ts.into_iter().collect();
+        for i in 0..v.len() {
+            if let (TokenTree::Ident(id), Some(TokenTree::Group(g))) = (&v[i], v.get(i + 1)) {
+                if id == name {
+                    return Some(g.stream());
+                }
+            }
+        }
+        None
+    }
+    fn item(ts: proc_macro2::TokenStream) -> String {
+        // `type = T`, `type = T, into`, or `custom(type = T, convert = ..)`
+        let inner = groups(ts.clone(), "custom").unwrap_or(ts);
+        let v: Vec<TokenTree> = inner.into_iter().collect();
+        let mut ty = proc_macro2::TokenStream::new();
+        let mut into = false;
+        let mut i = 0;
+        while i < v.len() {
+            if matches!(&v[i], TokenTree::Ident(id) if id == "type") && matches!(v.get(i + 1), Some(TokenTree::Punct(p)) if p.as_char() == '=') {
+                let mut depth = 0i32;
+                let mut j = i + 2;
+                while j < v.len() {
+                    if let TokenTree::Punct(p) = &v[j] {
+                        match p.as_char() {
+                            '<' => depth += 1,
+                            '>' => depth -= 1,
+                            ',' if depth == 0 => break,
+                            _ => {}
+                        }
+                    }
+                    ty.extend(std::iter::once(v[j].clone()));
+                    j += 1;
+                }
+                i = j;
+            } else {
+                if matches!(&v[i], TokenTree::Ident(id) if id == "into") {
+                    into = true;
+                }
+                i += 1;
+            }
+        }
+        let shown = match syn::parse2::<syn::Type>(ty.clone()) {
+            Ok(syn::Type::ImplTrait(it)) => {
+                let mut out = "?".to_string();
+                for b in &it.bounds {
+                    if let syn::TypeParamBound::Trait(tb) = b {
+                        if let Some(seg) = tb.path.segments.last() {
+                            if seg.ident == "Serialize" {
+                                out = "Serialize".to_string();
+                            } else if let syn::PathArguments::AngleBracketed(a) = &seg.arguments {
+                                for g in &a.args {
+                                    if let syn::GenericArgument::AssocType(at) = g {
+                                        out = format!("Iter<{}>", norm_type(&at.ty));
+                                    }
+                                }
+                            }
+                        }
+                    }
+                }
+                out
+            }
+            Ok(t) => norm_type(&t),
+            Err(_) => format!("?{}", ty.to_string().replace(' ', "")),
+        };
+        if into { format!("{},into", shown) } else { shown }
+    }
+    for a in attrs {
+        if !a.path().is_ident("builder") {
+            continue;
+        }
+        let ts = match &a.meta {
+            syn::Meta::List(l) => l.tokens.clone(),
+            _ => continue,
+        };
+        for kind in ["list", "set"] {
+            if let Some(g) = groups(ts.clone(), kind) {
+                if let Some(i) = groups(g, "item") {
+                    return format!("{}:{}", kind, item(i));
+                }
+            }
+        }
+        if let Some(g) = groups(ts.clone(), "map") {
+            if let (Some(k), Some(v)) = (groups(g.clone(), "key"), groups(g, "value")) {
+                return format!("map:{};{}", item(k), item(v));
+            }
+        }
+    }
+    "-".to_string()
+}
+
 /// a Rust type as the model renders it: path prefixes dropped, `Box` transparent, no blanks
 fn norm_type(ty: &syn::Type) -> String {
     if let syn::Type::Path(p) = ty {
@@ -321,6 +421,9 @@ fn norm_type(ty: &syn::Type) -> String {
             }
             return if args.is_empty() { seg.ident.to_string() } else { format!("{}<{}>", seg.ident, args.join(",")) };
         }
+    }
+    if let syn::Type::Tuple(t) = ty {
+        return format!("({})", t.elems.iter().map(norm_type).collect::<Vec<_>>().join(","));
     }
     quote::quote!(#ty).to_string().replace(' ', "")
 }
